@@ -29,6 +29,24 @@ def rand_address(rng, mode=None):
     return a
 
 
+def with_stray(rng, a, prob=0.4):
+    """Adds parameters that are legal but unused in the address's mode (an address_extension in a Normal mode, target / source
+    address bytes where the mode does not look at them): they must change nothing anywhere."""
+    if rng.random() >= prob:
+        return a
+    a = dict(a)
+    byte = lambda: rng.choice([0x00, 0xFF, rng.randint(0, 255), rng.randint(0, 255)])
+    m = a['mode']
+    if m not in ('Mixed_11bits', 'Mixed_29bits') and rng.random() < 0.7:
+        a['address_extension'] = byte()
+    if m in ('Normal_11bits', 'Normal_29bits', 'Mixed_11bits'):
+        if rng.random() < 0.5:
+            a['target_address'] = byte()
+        if rng.random() < 0.5:
+            a['source_address'] = byte()
+    return a
+
+
 def mirror(a):
     """The address of the peer that talks to [a] (documentation: addressing.rst)."""
     m = dict(a)
